@@ -1098,7 +1098,11 @@ where
           }) {
           Ok(()) => {
             *self = AsyncWaitForAcknowledgments::Waiting { ack_wait_receiver };
-            Poll::Pending
+            // Command is sent. Now poll the receiving end right away: that
+            // registers our waker (or finds the answer already there).
+            // Returning Pending here without a registered waker would leave
+            // this future asleep forever.
+            self.poll(cx)
           }
 
           Err(TrySendError::Full(WriterCommand::WaitForAcknowledgments {
@@ -1109,6 +1113,10 @@ where
               ack_wait_receiver,
               ack_wait_sender,
             };
+            // The command queue is full. Ask to be polled again, so that we
+            // get to retry. There is no notification for "queue has room for
+            // a WaitForAcknowledgments command", so we cannot sleep here.
+            cx.waker().wake_by_ref();
             Poll::Pending
           }
           Err(TrySendError::Full(_other_writer_command)) =>
